@@ -24,3 +24,42 @@ spec fn ids_ok(b: InnerBucket) -> bool {
 spec fn mapped_page(b: InnerBucket, p: u64) -> Page {
     page_view((*b.pages.data)@, p as int, b.pages.pagesize as int)
 }
+// ---- for InnerBucket::new_child: the handle map's operations (stub U23) and small std pieces ----
+pub uninterp spec fn key_of(b: Bytes) -> Seq<u8>;
+impl<'a> Clone for Bytes<'a> {
+    #[verifier::external_body]
+    fn clone(&self) -> (r: Self)
+        ensures key_of(r) == key_of(*self),
+    { unimplemented!() }
+}
+impl<'b> BucketMap<'b> {
+    pub uninterp spec fn has_handle(&self, k: Seq<u8>) -> bool;
+    pub uninterp spec fn handle(&self, k: Seq<u8>) -> Rc<RefCell<InnerBucket<'b>>>;
+    #[verifier::external_body]
+    fn insert(&mut self, k: Bytes<'b>, v: Rc<RefCell<InnerBucket<'b>>>) -> (r: Option<Rc<RefCell<InnerBucket<'b>>>>)
+        ensures final(self).has_handle(key_of(k)), final(self).handle(key_of(k)) == v,
+    { unimplemented!() }
+    #[verifier::external_body]
+    fn get_mut(&mut self, k: &Bytes<'b>) -> (r: Option<&mut Rc<RefCell<InnerBucket<'b>>>>)
+        ensures old(self).has_handle(key_of(*k)) ==> (r matches Some(h) && *h == old(self).handle(key_of(*k))),
+            final(self).has_handle(key_of(*k)) == old(self).has_handle(key_of(*k)),
+    { unimplemented!() }
+}
+impl Clone for Pages {
+    #[verifier::external_body]
+    fn clone(&self) -> (r: Self)
+        ensures r == *self,
+    { unimplemented!() }
+}
+pub uninterp spec fn bm_is_zero(m: BucketMeta) -> bool;
+#[verifier::external_body]
+proof fn axiom_bm_zero(m: BucketMeta)
+    ensures bm_is_zero(m) == (m.root_page == 0 && m.next_int == 0),
+{
+}
+impl Default for BucketMeta {
+    #[verifier::external_body]
+    fn default() -> (r: Self)
+        ensures bm_is_zero(r),         // #[derive(Default)] over two u64
+    { unimplemented!() }
+}
